@@ -36,7 +36,7 @@ Definition tview := restrict_tensor table.
    class x entry point, so that the case shards only look them up.  memo_* e c = row_* ... c e by construction. *)
 Definition all_entries : list entry :=
   [E_matmul; E_rmatmul; E_solve; E_inv_quad; E_inv_quad_logdet; E_add; E_sub; E_mul; E_add_diagonal; E_expand; E_getitem;
-   E_logdet; E_diagonalization; E_root_decomposition; E_root_inv_decomposition].
+   E_logdet; E_diagonalization; E_root_decomposition; E_root_inv_decomposition; E_cholesky].
 Definition verdict_memo (f : string -> entry -> bool) : list (string * entry * bool) :=
   flat_map (fun r => if entry_eqb (r_entry r) E_matmul
                      then map (fun e => (r_cls r, e, f (r_cls r) e)) all_entries else []) table.
